@@ -76,14 +76,21 @@ fn gen_singular<T: Elem>(src: &mut Src, n: usize) -> (M<T>, &'static str) {
 fn run_t<T: Elem>(case: &mut Case) -> Outcome {
     let n = case.src.urange(1, 8);
     let want_singular = case.src.below(4) == 0;
-    let (a, kind) = if want_singular { gen_singular::<T>(&mut case.src, n) } else { gen_square_k::<T>(&mut case.src, n, 6) };
-    let Some(ax) = mat_exact(&a) else { return Outcome::Discard("not-representable") };
+    let (a0, kind) = if want_singular { gen_singular::<T>(&mut case.src, n) } else { gen_square_k::<T>(&mut case.src, n, 6) };
+    // float types: the whole matrix may live at a very small or very large scale, 2^k with |k| <= 60
+    // (det scales by 2^(k n), the inverse by 2^-k, both exactly)
+    let gk: i32 = if !T::EXACT && case.src.below(3) == 0 { case.src.small_int(60) as i32 } else { 0 };
+    let a: M<T> = if gk == 0 { a0.clone() } else { a0.iter().map(|r| r.iter().map(|v| v.scale2(gk)).collect()).collect() };
+    if gk != 0 {
+        case.class("globally scaled by 2^k, |k| <= 60");
+    }
+    let Some(ax) = mat_exact(&a0) else { return Outcome::Discard("not-representable") };
     let (det_x, rank) = refla::det_rank(&ax);
     if crate::rat::overflowed() {
         return Outcome::Discard("rat-overflow");
     }
     let singular = rank < n;
-    let ac = mat_c(&a);
+    let ac = mat_c(&a0);
     let info = refla::gepp(&ac, None);
     case.class(format!("{}:{}", T::NAME, kind));
     case.class(if singular { format!("singular rank-deficit={}", (n - rank).min(3)) } else { format!("nonsingular exchanges%2={}", info.exchanges % 2) });
@@ -110,7 +117,15 @@ fn run_t<T: Elem>(case: &mut Case) -> Outcome {
         if !det.finite() {
             return Outcome::Fail(format!("determinant is not finite: {:?} (exact {:?})", det, det_x));
         }
-        let dc = det.to_c();
+        // undo the global scaling exactly
+        let mut dsc = det;
+        let mut left = -(gk as i64) * n as i64;
+        while left != 0 {
+            let step = left.clamp(-900, 900);
+            dsc = dsc.scale2(step as i32);
+            left -= step;
+        }
+        let dc = dsc.to_c();
         let ex = T::x_to_c(&det_x);
         let err = refla::cabs(refla::csub(dc, ex));
         let structurally_zero = a.iter().any(|r| r.iter().all(|v| v.is_zero_e())) || (0..n).any(|j| (0..n).all(|i| a[i][j].is_zero_e()));
@@ -122,6 +137,31 @@ fn run_t<T: Elem>(case: &mut Case) -> Outcome {
         if !(err <= DET_C * unit) {
             return Outcome::Fail(format!("determinant {:?} differs from exact {:?} by {:.3e} > {:.3e}", det, ex, err, DET_C * unit));
         }
+    }
+    // ---- float types: the same matrix with rows and columns at very different scales (exact powers of two, 2^+-40):
+    //      det(D1 A D2) = det(A) * 2^(sum of the exponents), exactly
+    if !T::EXACT && case.src.below(3) == 0 {
+        let rs: Vec<i32> = (0..n).map(|_| case.src.small_int(40) as i32).collect();
+        let cs: Vec<i32> = (0..n).map(|_| case.src.small_int(40) as i32).collect();
+        let b: M<T> = a0.iter().enumerate().map(|(i, r)| r.iter().enumerate().map(|(j, v)| v.scale2(rs[i]).scale2(cs[j])).collect()).collect();
+        let bc = mat_c(&b);
+        let infob = refla::gepp(&bc, None);
+        let total: i32 = rs.iter().sum::<i32>() + cs.iter().sum::<i32>();
+        let db = match catch(|| to_matrix(&b, n, n).determinant()) {
+            Ok(d) => d,
+            Err(e) => return Outcome::Fail(format!("determinant() panicked on a row/column-scaled matrix: {}", e)),
+        };
+        let ex = T::x_to_c(&det_x);
+        let exs = (ex.0 * 2f64.powi(total), ex.1 * 2f64.powi(total));
+        let err = refla::cabs(refla::csub(db.to_c(), exs));
+        let unit = (n * n * n) as f64 * EPS * infob.growth.max(1.0) * hadamard(&bc);
+        if unit > 0.0 && unit.is_finite() {
+            crate::calib::note("c02.det(scaled rows/cols) err/(n^3 eps rho H)", err / unit, || format!("{} {} n={}", T::NAME, kind, n));
+        }
+        if unit.is_finite() && exs.0.is_finite() && exs.1.is_finite() && !(err <= DET_C * unit) {
+            return Outcome::Fail(format!("determinant of the matrix with rows scaled by 2^{:?} and columns by 2^{:?} is {:?}, exact {:?} (error {:.3e} > {:.3e}); base matrix {}", rs, cs, db, exs, err, DET_C * unit, fmt_mat(&a0)));
+        }
+        case.class("determinant of a badly scaled variant");
     }
     // ---- transpose invariance and multiplicativity (exact types)
     if T::EXACT {
@@ -185,7 +225,7 @@ fn run_t<T: Elem>(case: &mut Case) -> Outcome {
                 if !x[i][j].finite() {
                     return Outcome::Fail(format!("inverse entry ({},{}) is not finite: {:?}", i, j, x[i][j]));
                 }
-                worst = worst.max(refla::cabs(refla::csub(x[i][j].to_c(), xec[i][j])));
+                worst = worst.max(refla::cabs(refla::csub(x[i][j].scale2(gk).to_c(), xec[i][j])));
             }
         }
         let unit = n as f64 * EPS * kappa * xmax;
@@ -204,8 +244,8 @@ impl Prop for C02 {
     fn rule(&self) -> String {
         "random choice streams decode to (element type in {rat, integer-valued f64, Gaussian-integer cmplx}, order 1..=8, \
          1/4 singular constructions {duplicate row/column, row combination, zero row, zero column at any position, rank <= n-2} and \
-         3/4 structured matrices {P*L*U, sparse+transversal, planted zero leading pivots, (permuted) triangular, signed/scaled permutation, dense}); \
-         determinant compared with exact fraction elimination (Gaussian rationals for cmplx), transpose/multiplicativity laws over rat, \
+         3/4 structured matrices {P*L*U, sparse+transversal, planted zero leading pivots, (permuted) triangular, signed/scaled permutation, dense}; float matrices scaled as a whole by 2^k, |k| <= 60, with probability 1/3); \
+         determinant compared with exact fraction elimination (for floats also on a variant with rows and columns scaled by individual powers of two 2^+-40) (Gaussian rationals for cmplx), transpose/multiplicativity laws over rat, \
          inverse multiplied back exactly (rat) or compared with the exact rational inverse (floats), operand snapshot compared bitwise. \
          Non-trivial: n >= 3 and (singular, or the reference elimination needs >= 2 row exchanges); distinct = distinct decoded choice sequence."
             .into()
